@@ -39,7 +39,7 @@ class VmMath:
     def push(self, srce) -> None:
         value = None
         if (isinstance(srce, Number) or
-                srce in (Register.UNIT_MODE, Operand.NULL)):
+                srce is Operand.NULL):
             value = srce
         elif isinstance(srce, Register):
             value = self._reg.get_by_enum(srce)
